@@ -3,6 +3,7 @@ package props
 import (
 	"fmt"
 	"go/ast"
+	"go/types"
 	"reflect"
 	"sort"
 	"strings"
@@ -121,7 +122,7 @@ type c11Site struct {
 // c11Set discovers the untrusted-input function set of package data: the
 // functions that use package reflect and lie on a call chain through a
 // function that writes through reflection (reflect.Value.Set*).
-func c11Set(c *kit.Ctx) (set []*kit.Func, writers []*kit.Func) {
+func c11Set(c *kit.Ctx) (set []*kit.Func, writers []*kit.Func, roots map[*kit.Func]bool) {
 	fs := c.P.Funcs("data")
 	uses := map[*kit.Func]bool{}
 	writes := map[*kit.Func]bool{}
@@ -199,18 +200,42 @@ func c11Set(c *kit.Ctx) (set []*kit.Func, writers []*kit.Func) {
 			set = append(set, f)
 		}
 	}
+	// roots are analysed with arbitrary arguments; an unexported, non-recursive
+	// helper all of whose callers are in the set is analysed only in the
+	// contexts of its callers (the interpreter inlines it)
+	roots = map[*kit.Func]bool{}
+	inSet := map[*kit.Func]bool{}
+	for _, f := range set {
+		inSet[f] = true
+	}
+	for _, f := range set {
+		helper := f.Decl != nil && !ast.IsExported(f.Decl.Name.Name) && len(callers[f]) > 0 && !closure(callees[f], callees)[f]
+		if helper {
+			for g := range callers[f] {
+				if !inSet[g] {
+					helper = false
+				}
+			}
+			if sig, ok := f.Obj.Type().(*types.Signature); ok && sig.Variadic() {
+				helper = false
+			}
+		}
+		if !helper {
+			roots[f] = true
+		}
+	}
 	return
 }
 
 func runC11(c *kit.Ctx) {
-	r1 := c.Rule("R1", "reflect index/slice/length bounded by 0 and Len()/Cap() of the same value", 7)
-	r2 := c.Rule("R2", "kind, validity and nil preconditions of reflect calls", 80)
-	set, writers := c11Set(c)
+	r1 := c.Rule("R1", "reflect index/slice/length bounded by 0 and Len()/Cap() of the same value", 5)
+	r2 := c.Rule("R2", "kind, validity and nil preconditions of reflect calls", 60)
+	set, writers, roots := c11Set(c)
 	if len(writers) < 3 {
 		c.Fatalf("expected at least 3 functions of package data that write through reflect.Value.Set*, found %d", len(writers))
 	}
-	if len(set) < 7 {
-		c.Fatalf("untrusted-input function set of package data has %d members, expected at least 7", len(set))
+	if len(set) < 5 {
+		c.Fatalf("untrusted-input function set of package data has %d members, expected at least 5", len(set))
 	}
 	var names []string
 	for _, f := range set {
@@ -223,29 +248,29 @@ func runC11(c *kit.Ctx) {
 	static := map[string]bool{}
 	var unguardedSets []string
 	nstates := 0
-	for _, f := range set {
-		info := f.Info()
-		sites := map[string]*c11Site{}
-		var order []string
-		ord := map[string]int{}
-		mk := func(call *ast.CallExpr, rule, what, recv, oblig string) *c11Site {
-			key := fmt.Sprintf("%s|%d|%s", rule, call.Pos(), what)
-			if s, ok := sites[key]; ok {
-				return s
-			}
-			ord[rule+what]++
-			s := &c11Site{f: f, call: call, rule: rule, oblig: oblig, by: map[string]bool{},
-				construct: fmt.Sprintf("%s #%d on %s", what, ord[rule+what], recv)}
-			sites[key] = s
-			order = append(order, key)
+	sites := map[string]*c11Site{}
+	orderBy := map[*kit.Func][]string{}
+	ord := map[string]int{}
+	mk := func(f *kit.Func, call *ast.CallExpr, rule, what, recv, oblig string) *c11Site {
+		key := fmt.Sprintf("%s|%s|%d|%s", f.Name, rule, call.Pos(), what)
+		if s, ok := sites[key]; ok {
 			return s
 		}
-		recvStr := func(call *ast.CallExpr) string {
-			if sel, ok := ast.Unparen(call.Fun).(*ast.SelectorExpr); ok {
-				return f.Str(sel.X)
-			}
-			return "-"
+		ord[f.Name+rule+what]++
+		s := &c11Site{f: f, call: call, rule: rule, oblig: oblig, by: map[string]bool{},
+			construct: fmt.Sprintf("%s #%d on %s", what, ord[f.Name+rule+what], recv)}
+		sites[key] = s
+		orderBy[f] = append(orderBy[f], key)
+		return s
+	}
+	recvStr := func(f *kit.Func, call *ast.CallExpr) string {
+		if sel, ok := ast.Unparen(call.Fun).(*ast.SelectorExpr); ok {
+			return f.Str(sel.X)
 		}
+		return "-"
+	}
+	for _, f := range set {
+		info := f.Info()
 		// pre-enumerate the sites in source order so that keys are stable and
 		// unreached sites are noticed
 		for _, call := range f.AllCalls(false) {
@@ -265,34 +290,43 @@ func runC11(c *kit.Ctx) {
 					static[name] = true
 				}
 				if !req.skip {
-					mk(call, "R2", name, recvStr(call), "receiver kind set within "+kit.RMaskStr(req.allowed))
+					mk(f, call, "R2", name, recvStr(f, call), "receiver kind set within "+kit.RMaskStr(req.allowed))
 				}
 				switch name {
 				case "Value.Index":
-					mk(call, "R1", name, recvStr(call), "0 <= index < Len() of the same value on every path")
+					mk(f, call, "R1", name, recvStr(f, call), "0 <= index < Len() of the same value on every path")
 				case "Value.Slice", "Value.Slice3":
-					mk(call, "R1", name, recvStr(call), "0 <= low <= high <= Cap()/Len() of the same value on every path")
+					mk(f, call, "R1", name, recvStr(f, call), "0 <= low <= high <= Cap()/Len() of the same value on every path")
 				}
 			case name == "reflect.MakeSlice":
-				mk(call, "R1", name, "-", "0 <= len <= cap on every path")
-				mk(call, "R2", name, "-", "type argument is a slice type")
+				mk(f, call, "R1", name, "-", "0 <= len <= cap on every path")
+				mk(f, call, "R2", name, "-", "type argument is a slice type")
 			case name == "reflect.MakeMap" || name == "reflect.MakeMapWithSize":
-				mk(call, "R2", name, "-", "type argument is a map type")
+				mk(f, call, "R2", name, "-", "type argument is a map type")
 			case name == "reflect.Copy":
-				mk(call, "R2", name, "-", "both arguments are arrays or slices")
+				mk(f, call, "R2", name, "-", "both arguments are arrays or slices")
 			case name == "":
 				if g := f.CalleeFunc(call); g != nil {
 					for _, a := range call.Args {
 						if kit.RType(info.TypeOf(a)) == "Value" {
-							mk(call, "R2", "Value into "+g.Name, f.Str(a), "the reflect.Value handed on is not the zero Value")
+							mk(f, call, "R2", "Value into "+g.Name, f.Str(a), "the reflect.Value handed on is not the zero Value")
 						}
 					}
 				}
 			}
 		}
+	}
+	var rootNames []string
+	for _, f := range set {
+		if !roots[f] {
+			continue
+		}
+		rootNames = append(rootNames, f.Name)
 		ri := &kit.RInterp{F: f, Sums: sums}
 		ri.OnEvent = func(ev *kit.REvent) {
 			nstates++
+			ef := ev.I.F
+			info := ef.Info()
 			name := ev.Name
 			fail := func(s *c11Site, format string, a ...any) {
 				if s.bad == "" {
@@ -301,10 +335,12 @@ func runC11(c *kit.Ctx) {
 			}
 			switch {
 			case name == "arg":
-				s := mk(ev.Call, "R2", "Value into "+ev.Callee.Name, f.Str(ev.Arg), "the reflect.Value handed on is not the zero Value")
+				s := mk(ef, ev.Call, "R2", "Value into "+ev.Callee.Name, ef.Str(ev.Arg), "the reflect.Value handed on is not the zero Value")
 				s.states++
-				if ri.Mask(ev.Recv, ev.S)&kit.RInvalid != 0 {
-					fail(s, "%s may be the zero reflect.Value when it is passed to %s (its first reflect method call panics)", f.Str(ev.Arg), ev.Callee.Name)
+				if ev.Inlined {
+					s.by["judged inside the helper, which is interpreted in this context"] = true
+				} else if ev.I.Mask(ev.Recv, ev.S)&kit.RInvalid != 0 {
+					fail(s, "%s may be the zero reflect.Value when it is passed to %s (its first reflect method call panics)", ef.Str(ev.Arg), ev.Callee.Name)
 				} else {
 					s.by["validity established on every path"] = true
 				}
@@ -314,12 +350,12 @@ func runC11(c *kit.Ctx) {
 					tab = c11Type
 				}
 				req := tab[name[strings.IndexByte(name, '.')+1:]]
-				m := ri.Mask(ev.Recv, ev.S)
+				m := ev.I.Mask(ev.Recv, ev.S)
 				if !req.skip {
-					s := mk(ev.Call, "R2", name, recvStr(ev.Call), "")
+					s := mk(ef, ev.Call, "R2", name, recvStr(ef, ev.Call), "")
 					s.states++
 					allowed := req.allowed
-					if req.ptrArr && m&kit.RK(reflect.Pointer) != 0 && ri.Mask(ev.Recv+".elem", ev.S)&^kit.RK(reflect.Array) == 0 {
+					if req.ptrArr && m&kit.RK(reflect.Pointer) != 0 && ev.I.Mask(ev.Recv+".elem", ev.S)&^kit.RK(reflect.Array) == 0 {
 						allowed |= kit.RK(reflect.Pointer)
 					}
 					bad := m &^ allowed
@@ -337,58 +373,61 @@ func runC11(c *kit.Ctx) {
 						fail(s, "%s may execute on a nil map (no dominating IsNil()/make on the same value)", name)
 					}
 					if req.argOK && len(ev.Call.Args) == 1 {
-						if am := ri.Mask(ev.Ent(ev.Call.Args[0]), ev.S); am&kit.RInvalid != 0 {
+						if am := ev.I.Mask(ev.Ent(ev.Call.Args[0]), ev.S); am&kit.RInvalid != 0 {
 							fail(s, "argument of %s may be the zero reflect.Value", name)
 						}
 					}
 				}
 				if strings.HasPrefix(name, "Value.Set") && ev.S.Get("cs:"+ev.Recv) != "T" {
-					unguardedSets = append(unguardedSets, fmt.Sprintf("%s %s in %s", f.At(ev.Call), name, f.Name))
+					unguardedSets = append(unguardedSets, fmt.Sprintf("%s %s in %s", ef.At(ev.Call), name, ef.Name))
 				}
 				switch name {
 				case "Value.Index":
-					s := mk(ev.Call, "R1", name, recvStr(ev.Call), "")
+					s := mk(ef, ev.Call, "R1", name, recvStr(ef, ev.Call), "")
 					s.states++
 					if len(ev.Call.Args) == 1 {
 						c11Index(ev, s, ev.Call.Args[0], fail)
 					}
 				case "Value.Slice", "Value.Slice3":
-					s := mk(ev.Call, "R1", name, recvStr(ev.Call), "")
+					s := mk(ef, ev.Call, "R1", name, recvStr(ef, ev.Call), "")
 					s.states++
 					c11Slice(ev, s, m, fail)
 				}
 			case name == "reflect.MakeSlice" && len(ev.Call.Args) == 3:
-				s := mk(ev.Call, "R1", name, "-", "")
+				s := mk(ef, ev.Call, "R1", name, "-", "")
 				s.states++
 				ln, cp := ev.Bounds(ev.Call.Args[1]), ev.Bounds(ev.Call.Args[2])
 				switch {
 				case ln.Lb == nil || *ln.Lb < 0:
-					fail(s, "MakeSlice length %s has no lower bound 0 on this path (negative length panics)", f.Str(ev.Call.Args[1]))
+					fail(s, "MakeSlice length %s has no lower bound 0 on this path (negative length panics)", ef.Str(ev.Call.Args[1]))
 				case !kit.SameExpr(info, ev.Call.Args[1], ev.Call.Args[2]) && !(ln.Ub != nil && cp.Lb != nil && *ln.Ub <= *cp.Lb):
-					fail(s, "MakeSlice length %s is not bounded by capacity %s", f.Str(ev.Call.Args[1]), f.Str(ev.Call.Args[2]))
+					fail(s, "MakeSlice length %s is not bounded by capacity %s", ef.Str(ev.Call.Args[1]), ef.Str(ev.Call.Args[2]))
 				default:
 					s.by[fmt.Sprintf("len >= %d, cap is the same expression or larger", *ln.Lb)] = true
 				}
-				c11TypeArg(ev, mk(ev.Call, "R2", name, "-", ""), kit.RK(reflect.Slice), fail)
+				c11TypeArg(ev, mk(ef, ev.Call, "R2", name, "-", ""), kit.RK(reflect.Slice), fail)
 			case name == "reflect.MakeMap" || name == "reflect.MakeMapWithSize":
-				c11TypeArg(ev, mk(ev.Call, "R2", name, "-", ""), kit.RK(reflect.Map), fail)
+				c11TypeArg(ev, mk(ef, ev.Call, "R2", name, "-", ""), kit.RK(reflect.Map), fail)
 			case name == "reflect.Copy" && len(ev.Call.Args) == 2:
-				s := mk(ev.Call, "R2", name, "-", "")
+				s := mk(ef, ev.Call, "R2", name, "-", "")
 				s.states++
 				for _, a := range ev.Call.Args {
-					if m := ri.Mask(ev.Ent(a), ev.S); m&^kit.RK(reflect.Array, reflect.Slice)&c11Supported != 0 {
-						fail(s, "reflect.Copy argument %s has kind set %s", f.Str(a), kit.RMaskStr(m))
+					if m := ev.I.Mask(ev.Ent(a), ev.S); m&^kit.RK(reflect.Array, reflect.Slice)&c11Supported != 0 {
+						fail(s, "reflect.Copy argument %s has kind set %s", ef.Str(a), kit.RMaskStr(m))
 					}
 				}
 				s.by["both arguments array/slice"] = true
 			}
 		}
 		res := ri.Run()
-		if res.Overflow {
+		if res.Overflow || ri.Overflowed {
 			r2.Ob(f, nil, "interpretation of "+f.Name, "state space explored").Undecided("state bound exceeded after %d states", res.Visited)
 			continue
 		}
-		for _, key := range order {
+	}
+	c.Note("analysed with arbitrary arguments: %s; the other members are interpreted in the contexts of their callers", strings.Join(rootNames, ", "))
+	for _, f := range set {
+		for _, key := range orderBy[f] {
 			s := sites[key]
 			rule := r2
 			if s.rule == "R1" {
